@@ -11,6 +11,7 @@ import warnings
 
 import numpy as np
 
+import common
 from common import Case, errname
 
 PID = 'C13'
@@ -87,6 +88,130 @@ def _tmpdir():
         _TMP = tempfile.mkdtemp(prefix='c13_')
         atexit.register(shutil.rmtree, _TMP, True)
     return _TMP
+
+
+# ------------------------------------------------------------------ constants regenerated from the source
+GEN_PATH = os.path.join(common.LEAN, 'NibabelModel', 'Generated', 'C13Consts.lean')
+
+
+def _src_ast(rel):
+    import ast
+    with open(os.path.join(common.REPO, rel)) as f:
+        return ast.parse(f.read())
+
+
+def _find_func(tree, cls, name):
+    import ast
+    for node in ast.walk(tree):
+        if isinstance(node, ast.ClassDef) and node.name == cls:
+            for it in node.body:
+                if isinstance(it, ast.FunctionDef) and it.name == name:
+                    return it
+    if cls is None:
+        for node in tree.body:
+            if isinstance(node, ast.FunctionDef) and node.name == name:
+                return node
+    raise RuntimeError('C13 regen: %s.%s not found' % (cls, name))
+
+
+def _defaults(fn):
+    """{argument name: source text of its default} for positional-or-keyword and keyword-only arguments"""
+    import ast
+    a = fn.args
+    pos = a.posonlyargs + a.args
+    out = {x.arg: ast.unparse(dv) for x, dv in zip(pos[len(pos) - len(a.defaults):], a.defaults)}
+    out.update({x.arg: ast.unparse(dv) for x, dv in zip(a.kwonlyargs, a.kw_defaults) if dv is not None})
+    return out
+
+
+def _not_in_tuple(fn, var):
+    """the constant tuple T of the first `if <var> not in T: raise` of a function"""
+    import ast
+    for node in ast.walk(fn):
+        if (isinstance(node, ast.Compare) and isinstance(node.left, ast.Name) and node.left.id == var
+                and len(node.ops) == 1 and isinstance(node.ops[0], ast.NotIn) and isinstance(node.comparators[0], ast.Tuple)):
+            return [ast.literal_eval(e) for e in node.comparators[0].elts]
+    raise RuntimeError('C13 regen: no `%s not in (...)` test in %s' % (var, fn.name))
+
+
+def _int_of(x, what):
+    if isinstance(x, bool) or not isinstance(x, (int, float)) or int(x) != x:
+        raise RuntimeError('C13 regen: %s is %r, not an integral constant' % (what, x))
+    return int(x)
+
+
+def _lean_str_list(xs):
+    return '[' + ', '.join('"%s"' % x for x in xs) + ']'
+
+
+def regen():
+    """Constants the model and the `spell` stream rely on, read from the CURRENT source with `ast` (no import):
+    defaults and accepted values of get_fdata / get_data, what ArrayProxy substitutes for a missing slope /
+    intercept (header spec and short tuple spec), the accepted `mmap` values and what `True` means."""
+    import ast
+    di = _src_ast('nibabel/dataobj_images.py')
+    gf = _find_func(di, 'DataobjImage', 'get_fdata')
+    gd = _find_func(di, 'DataobjImage', 'get_data')
+    dgf, dgd = _defaults(gf), _defaults(gd)
+    ap = _src_ast('nibabel/arrayproxy.py')
+    init = _find_func(ap, 'ArrayProxy', '__init__')
+    none_sub, optional = {}, None
+    for node in ast.walk(init):
+        # `<c> if slope is None else slope`
+        if (isinstance(node, ast.IfExp) and isinstance(node.test, ast.Compare) and isinstance(node.test.left, ast.Name)
+                and isinstance(node.test.ops[0], ast.Is) and isinstance(node.orelse, ast.Name)
+                and node.orelse.id == node.test.left.id and isinstance(node.body, ast.Constant)):
+            none_sub[node.test.left.id] = node.body.value
+        if (isinstance(node, ast.Assign) and len(node.targets) == 1 and isinstance(node.targets[0], ast.Name)
+                and node.targets[0].id == 'optional'):
+            optional = list(ast.literal_eval(node.value))
+    if set(none_sub) != {'slope', 'inter'} or optional is None or len(optional) != 3:
+        raise RuntimeError('C13 regen: ArrayProxy.__init__ has another shape: %r %r' % (none_sub, optional))
+    vu = _src_ast('nibabel/volumeutils.py')
+    aff = _find_func(vu, None, 'array_from_file')
+    true_mode = None
+    for node in ast.walk(aff):
+        # mode = '<m>' if mmap is True else mmap
+        if (isinstance(node, ast.Assign) and isinstance(node.targets[0], ast.Name) and node.targets[0].id == 'mode'
+                and isinstance(node.value, ast.IfExp) and isinstance(node.value.body, ast.Constant)
+                and ast.unparse(node.value.test) == 'mmap is True' and ast.unparse(node.value.orelse) == 'mmap'):
+            true_mode = node.value.body.value
+    if true_mode is None:
+        raise RuntimeError('C13 regen: `mode = ... if mmap is True else mmap` not found in array_from_file')
+    mm = ['%s' % (v,) for v in _not_in_tuple(init, 'mmap')]
+    text = '''/-! GENERATED by harness/props/c13.py regen() from the working tree of nibabel (ast of
+    nibabel/dataobj_images.py, nibabel/arrayproxy.py, nibabel/volumeutils.py).  Do not edit: rewritten on every
+    run of `./check C13`.  Core Lean only. -/
+namespace Nb.Gen.C13
+
+/-- `DataobjImage.get_fdata(self, caching=<this>, dtype=<this>)` -/
+def getFdataDefaultCaching : String := "%s"
+def getFdataDefaultDtype : String := "%s"
+/-- `DataobjImage.get_data(self, caching=<this>)` -/
+def getDataDefaultCaching : String := "%s"
+/-- `if caching not in <this>: raise ValueError` in get_fdata / get_data -/
+def getFdataCachingValues : List String := %s
+def getDataCachingValues : List String := %s
+/-- `ArrayProxy.__init__`: `<this> if slope is None else slope`, `<this> if inter is None else inter` -/
+def proxyNoneSlope : Int := %d
+def proxyNoneInter : Int := %d
+/-- `ArrayProxy.__init__`: `optional = (offset, slope, inter)` appended to a short tuple spec -/
+def proxyTupleOffset : Int := %d
+def proxyTupleSlope : Int := %d
+def proxyTupleInter : Int := %d
+/-- `ArrayProxy.__init__`: `if mmap not in <this>: raise ValueError` -/
+def proxyMmapValues : List String := %s
+/-- `array_from_file`: `mode = <this> if mmap is True else mmap` -/
+def mmapTrueMode : String := "%s"
+
+end Nb.Gen.C13
+''' % (ast.literal_eval(dgf['caching']), dgf['dtype'], ast.literal_eval(dgd['caching']),
+       _lean_str_list(_not_in_tuple(gf, 'caching')), _lean_str_list(_not_in_tuple(gd, 'caching')),
+       _int_of(none_sub['slope'], 'slope substitute'), _int_of(none_sub['inter'], 'inter substitute'),
+       _int_of(optional[0], 'optional[0]'), _int_of(optional[1], 'optional[1]'), _int_of(optional[2], 'optional[2]'),
+       _lean_str_list(mm), true_mode)
+    common.write_if_changed(GEN_PATH, text)
+    return ['Generated.C13Consts']
 
 
 # ------------------------------------------------------------------ cases
